@@ -176,7 +176,7 @@ func (c *checker) c19Static(b *built, helper string) {
 		return
 	}
 	for _, pr := range hr.Problems {
-		fail("request not self-consistent", pr, "every root service, parent and module id must resolve within the request and parent chains must be acyclic")
+		fail("request not self-consistent / import names of a plugin file not consistent", pr, "every root service, parent and module id must resolve within the request and parent chains must be acyclic; every name the template's import function hands out must be bound to that path, once, in the generated file")
 	}
 	prefix := b.opts.Prefix()
 	if hr.PackagePrefix != prefix {
@@ -548,7 +548,7 @@ func runC19(c *checker) {
 		logf("%s: %d ops", b.id(), len(cs.ops))
 		cs.run()
 	}
-	c.rep.Rule = "programs with 1–3 services per file (up to 6 functions; parameters/returns/exceptions over every type shape incl. optional/required/defaulted primitives, enums, binary, nested containers, unhashable keys, slice sets, typedefs of each, structs, cross-file references; inherited services across files) × {recurse, no-recurse, no-zap, pkg-prefix}; the GenerateServiceRequest captured in-process (gen.Generate with a capturing ServiceGenerator), every api.Type formatted by plugin.GoFileFromTemplate/formatType; generated *_Args/*_Result field types and *_Helper signatures parsed with go/ast, import aliases resolved to import paths; oracle: description = generated type, request self-consistent and matching the generated packages; Helper.Args/WrapResponse/UnwrapResponse/IsException executed by reflection on random values; Go type of every struct field vs the core type mapping (and the model's gotype); non-trivial = every function and op; distinct by (program, function/op)"
+	c.rep.Rule = "programs with 1–3 services per file (up to 6 functions; parameters/returns/exceptions over every type shape incl. optional/required/defaulted primitives, enums, binary, nested containers, unhashable keys, slice sets, typedefs of each, structs, cross-file references; inherited services across files) × {recurse, no-recurse, no-zap, pkg-prefix}; the GenerateServiceRequest captured in-process (gen.Generate with a capturing ServiceGenerator), every api.Type formatted by plugin.GoFileFromTemplate/formatType, once more in a file that imports 3–8 packages competing for names (equal base names, numbered variants, Go keywords) through the template's import function; generated *_Args/*_Result field types and *_Helper signatures parsed with go/ast, import aliases resolved to import paths; oracle: description = generated type, request self-consistent and matching the generated packages; Helper.Args/WrapResponse/UnwrapResponse/IsException executed by reflection on random values; Go type of every struct field vs the core type mapping (and the model's gotype); non-trivial = every function and op; distinct by (program, function/op)"
 }
 
 func init() {
